@@ -97,6 +97,25 @@ func (s *State) doCall(call *ssa.Call, cc *ssa.CallCommon) ([]*State, bool) {
 	if j := strings.Index(name, "::"); j >= 0 {
 		anchorName = name[j+2:]
 	}
+	// effect discipline (`forbids K`): checked at every call executed on behalf of the function under verification,
+	// including the calls of the functions it inlines
+	if top := s.topFrame(); top.Spec != nil && len(top.Spec.Forbids) > 0 {
+		for _, k := range top.Spec.Forbids {
+			if strings.HasPrefix(name, k) {
+				s.oblige("forbidden-call@"+sanitize(name), "no call of "+k+" (directly or through inlined code)", c.posOf(call.Pos()), "false")
+			}
+		}
+		if strings.HasPrefix(name, "dynamic ") || strings.HasPrefix(name, "invoke ") {
+			c.assume("A-EFFECT: calls through function values and interfaces in " + c.Key + " are taken not to perform what it forbids (" + strings.Join(top.Spec.Forbids, ", ") + ")")
+		}
+	}
+	beforeAnchor := fmt.Sprintf("before %s#%d", anchorName, occ)
+	if strings.HasPrefix(name, "dynamic ") {
+		// a call through a function-valued parameter or local: anchored by the variable's name (`before push#k`)
+		if pn := paramNameOf(cc.Value); pn != "" {
+			beforeAnchor = fmt.Sprintf("before %s#%d", pn, fr.bump("dynb "+pn))
+		}
+	}
 	if fr.Spec != nil && fr.Caller == nil && len(fr.Spec.Ghost) > 0 {
 		// ghost statements anchored before a call see its arguments as carg0, carg1, ... (receiver first for methods)
 		extra := map[string]TV{}
@@ -107,7 +126,7 @@ func (s *State) doCall(call *ssa.Call, cc *ssa.CallCommon) ([]*State, bool) {
 			}()
 		}
 		s.ghostExtra = extra
-		s.runGhost(fr, fmt.Sprintf("before %s#%d", anchorName, occ))
+		s.runGhost(fr, beforeAnchor)
 		s.ghostExtra = nil
 	}
 	defer func() {
@@ -182,7 +201,7 @@ func (s *State) doCall(call *ssa.Call, cc *ssa.CallCommon) ([]*State, bool) {
 			if spn, ok := c.Spec.CallSpecs[pn]; ok {
 				if sp := c.SS.Funcs["funcspec::"+spn]; sp != nil {
 					s.contractCall(call, sp, nil, cc.Signature(), args, name, occ, false)
-					s.runGhost(fr, fmt.Sprintf("after %s#%d", pn, fr.bump("dyn "+pn)))
+					s.runGhostAfter(fr, call, fmt.Sprintf("after %s#%d", pn, fr.bump("dyn "+pn)))
 					return nil, false
 				}
 			}
@@ -211,6 +230,19 @@ func (s *State) doCall(call *ssa.Call, cc *ssa.CallCommon) ([]*State, bool) {
 		}
 	}
 	if sp := c.SS.specFor(fn); sp != nil && (sp.HasBody || sp.Trusted) && !sp.Inline {
+		if top := s.topFrame(); top.Spec != nil && !strings.HasSuffix(sp.File, ".spec") {
+			for _, k := range top.Spec.Forbids {
+				has := false
+				for _, k2 := range sp.Forbids {
+					if strings.HasPrefix(k, k2) {
+						has = true
+					}
+				}
+				if !has {
+					s.oblige("forbids-callee@"+sanitize(key), "the called function "+key+" forbids "+k+" too (its contract says so)", c.posOf(call.Pos()), "false")
+				}
+			}
+		}
 		s.contractCall(call, sp, fn, fn.Signature, args, key, occ, false)
 		s.runGhostAfter(fr, call, fmt.Sprintf("after %s#%d", anchorName, occ))
 		return nil, false
@@ -459,6 +491,17 @@ func (s *State) contractCall(call *ssa.Call, sp *FuncSpec, fn *ssa.Function, sig
 					}
 				}
 				for ri, r := range asp.Requires {
+					if _, err := cenv.evalBool(r.E); err != nil && strings.Contains(err.Error(), "unknown identifier") && c.mentionsForeignGhost(r.Src) {
+						// conjuncts about the closure's own ghost variables (their initial values) are not demands on the
+						// code that hands the closure over
+						for k, cj := range splitConj(r.E) {
+							if _, err := cenv.evalBool(cj); err != nil {
+								continue
+							}
+							s.obligeExpr(fmt.Sprintf("closure-pre#%d.%d@%s#%d", ri+1, k+1, short0(name), occ), r.Src, c.posOf(call.Pos()), cenv, cj, fmt.Sprintf("%s:%d: requires of the closure %s", r.File, r.Line, funcKey(cl.Fn)))
+						}
+						continue
+					}
 					s.obligeExpr(fmt.Sprintf("closure-pre#%d@%s#%d", ri+1, short0(name), occ), r.Src, c.posOf(call.Pos()), cenv, r.E, fmt.Sprintf("%s:%d: requires of the closure %s", r.File, r.Line, funcKey(cl.Fn)))
 				}
 				c.assume("A-CAPTURE: what a closure's preconditions say about its captured variables and the ghost state still holds when the closure is called")
@@ -1074,8 +1117,16 @@ func (s *State) permuteSlice(xs Term, st *types.Slice) (Term, Term) {
 	lo := fmt.Sprintf("(s.off %s)", xs)
 	hi := fmt.Sprintf("(+ (s.off %s) (s.len %s))", xs, xs)
 	p, q := c.fresh("q_p"), c.fresh("q_q")
-	s.assert(fmt.Sprintf("(forall ((%s Int)) (! (=> (and (<= %s %s) (< %s %s)) (exists ((%s Int)) (and (<= %s %s) (< %s %s) (= (select %s %s) (select %s %s))))) :pattern ((select %s %s))))", p, lo, p, p, hi, q, lo, q, q, hi, A1, p, A0, q, A1, p))
-	s.assert(fmt.Sprintf("(forall ((%s Int)) (! (=> (and (<= %s %s) (< %s %s)) (exists ((%s Int)) (and (<= %s %s) (< %s %s) (= (select %s %s) (select %s %s))))) :pattern ((select %s %s))))", q, lo, q, q, hi, p, lo, p, p, hi, A1, p, A0, q, A0, q))
+	if s.topFrame().Spec != nil && s.topFrame().Spec.NoSafety["sortfacts-index"] {
+		// the same two facts over indices (idx(off, i)), for contracts that speak about x[i]
+		i, j := c.fresh("q_i"), c.fresh("q_j")
+		n := fmt.Sprintf("(s.len %s)", xs)
+		s.assert(fmt.Sprintf("(forall ((%s Int)) (! (=> (and (<= 0 %s) (< %s %s)) (exists ((%s Int)) (and (<= 0 %s) (< %s %s) (= (select %s (idx %s %s)) (select %s (idx %s %s)))))) :pattern ((select %s (idx %s %s)))))", i, i, i, n, j, j, j, n, A1, lo, i, A0, lo, j, A1, lo, i))
+		s.assert(fmt.Sprintf("(forall ((%s Int)) (! (=> (and (<= 0 %s) (< %s %s)) (exists ((%s Int)) (and (<= 0 %s) (< %s %s) (= (select %s (idx %s %s)) (select %s (idx %s %s)))))) :pattern ((select %s (idx %s %s)))))", j, j, j, n, i, i, i, n, A1, lo, i, A0, lo, j, A0, lo, j))
+	} else {
+		s.assert(fmt.Sprintf("(forall ((%s Int)) (! (=> (and (<= %s %s) (< %s %s)) (exists ((%s Int)) (and (<= %s %s) (< %s %s) (= (select %s %s) (select %s %s))))) :pattern ((select %s %s))))", p, lo, p, p, hi, q, lo, q, q, hi, A1, p, A0, q, A1, p))
+		s.assert(fmt.Sprintf("(forall ((%s Int)) (! (=> (and (<= %s %s) (< %s %s)) (exists ((%s Int)) (and (<= %s %s) (< %s %s) (= (select %s %s) (select %s %s))))) :pattern ((select %s %s))))", q, lo, q, q, hi, p, lo, p, p, hi, A1, p, A0, q, A0, q))
+	}
 	s.assert(fmt.Sprintf("(forall ((%s Int)) (! (=> (not (and (<= %s %s) (< %s %s))) (= (select %s %s) (select %s %s))) :pattern ((select %s %s))))", p, lo, p, p, hi, A1, p, A0, p, A1, p))
 	return A0, A1
 }
@@ -1326,4 +1377,12 @@ func splitConj(e Expr) []Expr {
 		return append(splitConj(b.X), splitConj(b.Y)...)
 	}
 	return []Expr{e}
+}
+
+func (s *State) topFrame() *Frame {
+	fr := s.Frame
+	for fr.Caller != nil {
+		fr = fr.Caller
+	}
+	return fr
 }
